@@ -118,6 +118,20 @@ def main(tier):
                     continue
                 dq, dr = split(n)
                 ev.append({"e": "Add", "src": "dadd-stdin-durations", "t": [l, s_], "dq": dq, "dr": dr, "res": parse_dt(ch, got), "out": got, "line": x})
+        # the operand as seconds since the epoch (@N, -i %s N): the same additions, both signs
+        eps = [(l, s_) for l, s_ in pts if (l - U0) * 86400 + s_ > 0][:: 9 if quick else 2][:60]
+        for n, unit in ((-1, "s"), (1, "s"), (-3600, "s"), (-30, "m"), (-1, "h"), (25, "h"), (-86401, "s"), (-2147483647, "s"), (90, "m")):
+            for l, s_ in eps:
+                v = (l - U0) * 86400 + s_
+                tot = n * MULT[unit]
+                if not (chainmod.LDN_1601 + 2 <= (l * 86400 + s_ + tot) // 86400 < caldrv.TAIL_FIRST - 2):
+                    continue
+                dq, dr = split(tot)
+                for how, args in (("@N", ["--", "@%d" % v, "%+d%s" % (n, unit)]), ("-i %s", ["-i", "%s", "-f", "%FT%T", "--", "%d" % v, "%+d%s" % (n, unit)])):
+                    p = core.run([dadd] + args, timeout=20)
+                    nrun += 1
+                    got = p.stdout.strip()
+                    ev.append({"e": "Add", "src": "dadd-epoch-operand %s" % how, "t": [l, s_], "dq": dq, "dr": dr, "res": parse_dt(ch, got), "out": got, "cmd": " ".join(args)})
         # differences in seconds, near and far (more than 2^31 s apart too)
         for i in range(300 if quick else 30000):
             (la, sa) = rng.choice(pts)
